@@ -26,7 +26,7 @@ def floors(tier):
     k = 1 if tier == "quick" else 8
     return {"patterns": 200 * k, "helper_pairs_present": 200 * k, "roundtrips": 6000 * k, "nonmatch_probes": 4000 * k, "common_roundtrips": 200 * k,
             "form:sep": 30 * k, "form:dstar": 10 * k, "form:singleton": 10 * k, "form:wildcard": 5 * k,
-            "held_below_request_or_reply": 60 * k, "held_two_or_more_hops_down": 30 * k}
+            "held_below_request_or_reply": 60 * k, "held_two_or_more_hops_down": 30 * k, "held_by_lro_response_type": 20 * k}
 
 
 def plan(seed, tier):
@@ -158,6 +158,8 @@ def run_case(case):
             bump("held_below_request_or_reply")
             if hb in ("ReqLevel2", "ReqLevel3", "ReplyLevel2"):
                 bump("held_two_or_more_hops_down")
+            if hb.startswith("LroResult"):
+                bump("held_by_lro_response_type")
         meta = set(re.findall(r"[.^$*+?()\[\]{}|\\]", VAR.sub("", it["pattern"]))) if it["pattern"] != "*" else set()
         mech = {"form": it["form"], "separators": sorted(delimiters(it["pattern"]) - {"/"}), "literal_has_regex_metachar": bool(meta)}
 
